@@ -121,7 +121,7 @@ def _check_report(body, tr, group, pmdib, validator):
     return out
 
 
-def report_content(mdib_file, n_steps, seeds):
+def report_content(mdib_file, n_steps, seeds, kinds=None):
     from sdc11073 import observableproperties as properties
     from sdc11073.schema_resolver import mk_schema_validator
     from native.histories import History
@@ -137,7 +137,7 @@ def report_content(mdib_file, n_steps, seeds):
             for i in range(n_steps):
                 del commits[:]
                 n0 = len(lp.sent)
-                kind, detail = h.step()
+                kind, detail = h.step(kinds[i % len(kinds)] if kinds else None)
                 new = lp.sent[n0:]
                 if len(commits) != 1:
                     continue     # set_location may run more than one transaction: checked by the order test only
@@ -164,6 +164,12 @@ def report_content(mdib_file, n_steps, seeds):
                 if len(bad) > 5:
                     return cases, bad
     return cases, bad
+
+
+def content_every_kind():
+    from native.histories import KINDS
+    order = tuple(k for k in KINDS if k != 'descr_update_context') + ('context', 'descr_update_context')
+    return report_content('mdib_two_mds.xml', len(order), [SEED + 21], kinds=order)
 
 
 def content_single():
@@ -299,6 +305,7 @@ if __name__ == '__main__':
     c = Collector()
     c.run('C04.report_part_api', 'F', report_part_api, bound='every report class of msg_types with add_report_part')
     c.run_parallel([
+        ('C04.report_content_every_kind', 'B', content_every_kind, 'every transaction kind of native/histories.py once in fixed order on the two-MDS MDIB'),
         ('C04.report_content_single_mds', 'B', content_single, 'quick: 1 seed x 30 random transactions, every sent report compared with the transaction result; thorough: 5 x 120'),
         ('C04.report_content_two_mds', 'B', content_two_mds, 'same on mdib_two_mds.xml (MDS grouping)'),
         ('C04.delivery_order_sync', 'B', order_sync, 'quick: 4 writer threads x 8 commits, 2 consumers, synchronous subscription manager; thorough: 8 x 40'),
